@@ -77,3 +77,213 @@ def oracle_c01(case, lines, runner=None):
             if ins[0] == 'timeout' and ins[2] < 0:
                 pass
     return fails
+
+
+# =====================================================================================================
+# instrumented oracle runs for C02 / C04 / C05
+
+class OracleRunner(kscript.Runner):
+    """a second, instrumented execution of the same case (the kernel is deterministic): records what every process
+    waited for and received, every trigger / interrupt attempt, every condition, and when each event was processed"""
+
+    def __init__(self, case):
+        super().__init__(case)
+        self.rec = []           # chronological records
+        self.processed = {}     # label -> (seqno, now, ok, value)
+        self.conds = {}         # label -> (kind, [operand events])
+        self.seqno = 0
+
+    def _tick(self):
+        self.seqno += 1
+        return self.seqno
+
+    def hook(self, what, *a):
+        if what == 'new':
+            ev = a[0]
+            if ev.callbacks is not None:
+                lab = self.nlabel
+                def cb(e, lab=lab):
+                    self.processed[lab] = (self._tick(), self.env.now, e._ok, e._value,
+                                           [self.lab(x) for x in e._value.events] if type(e._value).__name__ == 'ConditionValue' else None)
+                ev.callbacks.insert(0, cb)
+        elif what == 'yield':
+            name, ev = a
+            name = (name, id(self.env.active_process))      # static names can be shared by several spawned processes
+            self.rec.append(('yield', self._tick(), name, self.lab(ev), self.env.now, ev.callbacks is None, ev))
+        elif what == 'resumed':
+            name, ok, v = a
+            name = (name, id(self.env.active_process))
+            self.rec.append(('resumed', self._tick(), name, ok, v, self.env.now))
+        elif what == 'trigger':
+            name, ev, was, raised = a
+            self.rec.append(('trigger', self._tick(), name, self.lab(ev), was, raised))
+        elif what == 'interrupt':
+            name, victim, cause, alive, selfi, raised = a
+            self.rec.append(('interrupt', self._tick(), name, (self.pnames.get(id(victim)), id(victim)), cause, alive, selfi, raised, self.env.now))
+        elif what == 'cond':
+            ev, kind, evs = a
+            self.conds[self.lab(ev)] = (kind, list(evs), self.env.now, self._tick())
+
+
+def same_outcome(ev_ok, ev_val, got_ok, got):
+    if ev_ok != got_ok:
+        return False
+    if ev_ok:
+        return got is ev_val or got == ev_val
+    return type(got) is type(ev_val) and got.args == ev_val.args
+
+
+def externally_triggered(r):
+    """labels of Process / Condition / request events that a program triggered by hand (outside the quantifier)"""
+    by_label = {r.lab(e): e for e in r.keep}
+    out = set()
+    for rec in r.rec:
+        if rec[0] == 'trigger' and type(by_label.get(rec[3])).__name__ not in ('Event',):
+            out.add(rec[3])
+    return out
+
+
+def instrumented(case):
+    r = OracleRunner(case)
+    try:
+        r.run()
+    except BaseException:
+        pass
+    return r
+
+
+def oracle_c02(case, lines, runner=None):
+    """every waiter receives the awaited event's outcome exactly once, at the instant it is processed (or at once if it
+    already was); second triggers are refused; an unhandled failure surfaces"""
+    if case.mode != 'step' or any(l.startswith('X TypeError') for l in lines):
+        return []
+    r = instrumented(case)
+    fails = []
+    waiting = {}
+    ext = externally_triggered(r)
+    for rec in r.rec:
+        if rec[0] == 'yield':
+            waiting[rec[2]] = rec
+        elif rec[0] == 'resumed':
+            _, seq, name, ok, v, now = rec
+            y = waiting.pop(name, None)
+            if y is None:
+                fails.append({'what': f'process {name} was resumed twice for one yield', 'signature': 'c02-double-resume'}); break
+            if (not ok) and type(v).__name__ == 'Interrupt':
+                continue
+            _, yseq, _, lab, ynow, was_processed, ev = y
+            p = r.processed.get(lab)
+            if p is None or lab in ext:
+                continue
+            eok, eval_ = p[2], p[3]
+            if type(ev).__name__ in ('AllOf', 'AnyOf', 'Condition'):
+                if eok and ok:
+                    continue          # the value of a condition is the subject of C05
+            if not same_outcome(eok, eval_ if type(eval_).__name__ != 'ConditionValue' else v, ok, v):
+                fails.append({'what': f'process {name} waited for event e{lab} whose outcome is '
+                                      f'{"ok " + repr(eval_) if eok else "fail " + repr(eval_)} but received '
+                                      f'{"value" if ok else "exception"} {v!r}', 'signature': 'c02-wrong-outcome'}); break
+            if was_processed and now != ynow:
+                fails.append({'what': f'process {name} yielded the processed event e{lab} at {ynow} but continued at {now}', 'signature': 'c02-processed-not-immediate'}); break
+            if not was_processed and p[1] != now:
+                fails.append({'what': f'process {name} was resumed at {now} by event e{lab} processed at {p[1]}', 'signature': 'c02-resume-time'}); break
+        elif rec[0] == 'trigger':
+            _, seq, name, lab, was, raised = rec
+            if was != raised:
+                fails.append({'what': f'succeed/fail on e{lab} (already triggered: {was}) {"raised" if raised else "did not raise"} RuntimeError',
+                              'signature': 'c02-trigger-once'}); break
+    # failures are never lost: a processed failed event is either defused or made the run raise its exception
+    xs = [l for l in lines if l.startswith('X ')]
+    for ev in r.keep:
+        if ev.callbacks is None and getattr(ev, '_ok', True) is False and not ev.defused:
+            if not any(l.split(' ')[1] == type(ev._value).__name__ for l in xs):
+                fails.append({'what': f'event e{r.lab(ev)} failed with {ev._value!r}, nobody handled it, and the run did not raise it',
+                              'signature': 'c02-failure-lost'}); break
+    return fails[:3]
+
+
+def oracle_c04(case, lines, runner=None):
+    """interrupts: refused iff the victim is dead or the caller itself; delivered once, at the issue instant, in issue order"""
+    if any(l.startswith('X TypeError') for l in lines):
+        return []
+    r = instrumented(case)
+    fails = []
+    issued = {}      # victim name -> list of (cause, now)
+    got = {}
+    waiting = {}
+    for rec in r.rec:
+        if rec[0] == 'yield':
+            waiting[rec[2]] = rec
+        if rec[0] == 'resumed' and (not rec[3]) and type(rec[4]).__name__ == 'Interrupt':
+            y = waiting.get(rec[2])
+            p = r.processed.get(y[3]) if y else None
+            if p is not None and p[2] is False and type(p[3]).__name__ == 'Interrupt' and p[3].args == rec[4].args:
+                continue      # not an interrupt: the awaited event (a process that re-raised its Interrupt) failed with this exception
+        if rec[0] == 'interrupt':
+            _, seq, by, victim, cause, alive, selfi, raised, now = rec
+            should = (not alive) or selfi
+            if should != raised:
+                fails.append({'what': f'interrupt() by process {by} on process {victim} (alive: {alive}, itself: {selfi}) '
+                                      f'{"raised" if raised else "did not raise"} RuntimeError', 'signature': 'c04-refusal'}); break
+            if not raised:
+                issued.setdefault(victim, []).append((cause, now))
+        elif rec[0] == 'resumed' and (not rec[3]) and type(rec[4]).__name__ == 'Interrupt' and not type(rec[4].cause).__name__ == 'Preempted':
+            got.setdefault(rec[2], []).append((rec[4].cause, rec[5]))
+    for victim, g in got.items():
+        want = issued.get(victim, [])
+        if g != want[:len(g)]:
+            fails.append({'what': f'process {victim} received interrupts {g}, issued (cause, instant) were {want}', 'signature': 'c04-delivery-order'})
+            break
+    return fails[:3]
+
+
+def leaves(r, ev):
+    if type(ev).__name__ in ('AllOf', 'AnyOf', 'Condition'):
+        out = []
+        for e in ev._events:
+            out += leaves(r, e)
+        return out
+    return [ev]
+
+
+def oracle_c05(case, lines, runner=None):
+    """conditions: processed at the instant the predicate first holds; value = processed leaves in operand order"""
+    if any(l.startswith('X TypeError') for l in lines):
+        return []
+    r = instrumented(case)
+    fails = []
+    by_label = {r.lab(e): e for e in r.keep}
+    ext = externally_triggered(r)
+    for lab, (kind, ops, t_created, seq_created) in r.conds.items():
+        c = by_label.get(lab)
+        p = r.processed.get(lab)
+        if c is None or p is None or lab in ext or any(r.lab(e) in ext for e in leaves(r, c)):
+            continue
+        pseq, pnow, pok, pval, pkeys = p
+        # instants at which the operands were processed (operands processed before construction count from construction)
+        times = []
+        for e in ops:
+            q = r.processed.get(r.lab(e))
+            if q is None:
+                times.append(None)
+            else:
+                times.append((max(q[1], t_created), q[2], e))
+        done = [x for x in times if x is not None]
+        fail_first = min([x[0] for x in done if not x[1]], default=None)
+        if kind == 'allof':
+            want = max([x[0] for x in done], default=t_created) if len(done) == len(ops) else None
+        else:
+            want = min([x[0] for x in done], default=t_created) if (done or not ops) else None
+        if not ops:
+            want = t_created
+        if pok:
+            if want is None or pnow != want:
+                fails.append({'what': f'{kind} e{lab} over operands {[r.lab(e) for e in ops]} was processed at {pnow}; its predicate first holds at {want}',
+                              'signature': 'c05-trigger-instant'}); break
+            lv = [r.lab(e) for e in leaves(r, c) if r.lab(e) in r.processed and r.processed[r.lab(e)][0] < pseq] if ops else []
+            if pkeys is not None and pkeys != lv:
+                fails.append({'what': f'{kind} e{lab}: value has keys {pkeys}, the leaf operands processed by then are {lv}', 'signature': 'c05-value'}); break
+        else:
+            if fail_first is None:
+                fails.append({'what': f'{kind} e{lab} failed although no operand failed', 'signature': 'c05-spurious-fail'}); break
+    return fails[:3]
